@@ -413,8 +413,10 @@ def render(facts: dict, how: dict | None = None) -> str:
     return "\n".join(lines)
 
 
-def run(repo: Path, lean_dir: Path, write_if_changed, module=None) -> dict:
+def run(repo: Path, lean_dir: Path, write_if_changed, module=None, facts_out: dict | None = None) -> dict:
     facts, how = extract_facts(repo, module)
+    if facts_out is not None:                           # the established values, for the decision tables' float filter
+        facts_out.update(facts)
     changed = write_if_changed(lean_dir / OUT_REL, render(facts, how))
     bad = sorted(k for k, v in facts.items() if isinstance(v, Exception))
     return {"id": "E5-quorum", "facts_changed": bool(changed),
